@@ -290,4 +290,19 @@ B('BUS-init-no-check', ['C17'], 'bus.py', 'Bus.__init__',
 N('BUS-get-via-loc', ['C17'], 'bus.py', 'Bus.get',
   'return self.__getitem__(key)', 'return self._extract_loc(key)')
 
+# ---------------------------------------------------------------------------------- I (C05 dtype lint, C16 dialect)
+B('I-dtype-class-as-specifier', ['C05'], 'type_blocks.py', 'TypeBlocks.dtypes',
+  'dtype=DTYPE_OBJECT', 'dtype=np.dtype', 'I.dtype-specifier', 'dtypes')
+B('I-dtype-class-elsewhere', ['C05'], 'type_blocks.py', 'TypeBlocks.shapes',
+  'a = np.empty(len(self._blocks), dtype=object)', 'a = np.empty(len(self._blocks), dtype=np.dtype)', 'I.dtype-specifier', 'shapes')
+B('I-csv-reader-quotechar-dropped', ['C16'], 'frame.py', 'Frame.from_delimited',
+  'for row in csv.reader(fp, delimiter=delimiter, quotechar=quote_char):', 'for row in csv.reader(fp, delimiter=delimiter):', 'I.csv-dialect', 'file_like')
+B('I-csv-raw-lines', ['C16'], 'frame.py', 'Frame.from_delimited',
+  "                    with open(fp, 'r') as f:\n                        for row in csv.reader(f, delimiter=delimiter, quotechar=quote_char):\n                            yield delimiter_native.join(row)",
+  "                    with open(fp, 'r') as f:\n                        for row in f:\n                            yield row.replace(delimiter, delimiter_native)", 'I.csv-dialect', 'file_like')
+B('I-csv-writer-quotechar', ['C16'], 'frame.py', 'Frame.to_delimited',
+  'quotechar=quote_char,', "quotechar='\\'',", 'I.csv-dialect', 'to_delimited')
+B('I-tsv-wrapper-constant', ['C16'], 'frame.py', 'Frame.to_tsv',
+  "delimiter='\\t',", "delimiter=' ',", 'I.csv-dialect', 'to_tsv')
+
 VARIANTS = V
